@@ -26,25 +26,27 @@ digest() {
 # place <patch>: leaves the tree with the patch applied; prints the commit it was applied at, or fails
 place() {
   local P=$1 H=$HEAD
-  (cd $T/wt && git checkout -q -- . && git clean -fdq && git checkout -q --detach $H 2>/dev/null && git apply --check $P 2>/dev/null) || \
+  (cd $T/wt && git reset -q --hard && git clean -fdq && git checkout -q --detach $H 2>/dev/null && git apply --check $P 2>/dev/null) || \
     H=$(python3 -c "import json,sys,os; p=os.path.join(os.path.dirname(sys.argv[1]),'result.json'); print(json.load(open(p)).get('head','') if os.path.exists(p) else '')" $P 2>/dev/null)
   [ -z "$H" ] && return 1
-  (cd $T/wt && git checkout -q -- . && git clean -fdq && git checkout -q --detach $H 2>/dev/null && git apply $P 2>/dev/null) || return 1
+  (cd $T/wt && git reset -q --hard && git clean -fdq && git checkout -q --detach $H 2>/dev/null && git apply $P 2>/dev/null) || return 1
   echo $H
 }
 declare -A BASE
 base() { # digest of commit $1 without a patch
-  if [ -z "${BASE[$1]:-}" ]; then (cd $T/wt && git checkout -q -- . && git clean -fdq && git checkout -q --detach $1); BASE[$1]=$(digest $T/extract-ranges); fi
+  if [ -z "${BASE[$1]:-}" ]; then (cd $T/wt && git reset -q --hard && git clean -fdq && git checkout -q --detach $1); BASE[$1]=$(digest $T/extract-ranges); fi
   echo "${BASE[$1]}"
 }
+PARTS=${PARTS:-"break reverts benign variants"}   # PARTS="reverts variants" ./robustness.sh runs a part only
+has() { [[ " $PARTS " == *" $1 "* ]]; }
 fail=0
-for p in $MUST_BREAK; do
+for p in $(has break && echo $MUST_BREAK); do
   H=$(place /verif/seeded/$p/patch.diff) || { echo "must-break $p: APPLY-FAILED"; fail=1; continue; }
   r=$(digest $T/extract-ranges)
   if [ "$r" == "-" ] || [ "$r" == "$(base $H)" ]; then echo "must-break $p: NOT CAUGHT"; fail=1; else echo "must-break $p: breaks  ${r:0:300}"; fi
 done
-for c in $REVERTS; do
-  (cd $T/wt && git checkout -q -- . && git clean -fdq && git checkout -q --detach $HEAD)
+for c in $(has reverts && echo $REVERTS); do
+  (cd $T/wt && git reset -q --hard && git clean -fdq && git checkout -q --detach $HEAD)
   if ! (cd $T/wt && git revert -n $c >/dev/null 2>&1); then
     (cd $T/wt && git revert --abort 2>/dev/null; git reset -q --hard $HEAD)
     # does not revert cleanly at HEAD any more: the tree just after the repair, with the repair taken back
@@ -56,21 +58,21 @@ for c in $REVERTS; do
   (cd $T/wt && git reset -q --hard)
 done
 quiet=0; alarms=0
-for d in /verif/seeded/benign/*/; do
+for d in $(has benign && ls -d /verif/seeded/benign/*/); do
   [ -f $d/patch.diff ] || continue
   H=$(place $d/patch.diff) || { echo "benign $(basename $d): APPLY-FAILED"; continue; }
   r=$(digest $T/extract-ranges)
   if [ "$r" == "-" ] || [ "$r" == "$(base $H)" ]; then quiet=$((quiet+1)); else alarms=$((alarms+1)); echo "benign $(basename $d): ALARM  ${r:0:400}"; fail=1; fi
 done
-echo "benign: $quiet quiet, $alarms alarm"
-for p in $V/break-*.diff; do
+has benign && echo "benign: $quiet quiet, $alarms alarm"
+for p in $(has variants && ls $V/break-*.diff); do
   [ -f $p ] || continue
   place $p >/dev/null || { echo "variant $(basename $p): APPLY-FAILED"; fail=1; continue; }
   (cd $T/wt && go build ./... 2>&1 | head -3)
   r=$(digest $T/extract-ranges)
   if [ "$r" == "-" ]; then echo "variant $(basename $p): NOT CAUGHT"; fail=1; else echo "variant $(basename $p): breaks  ${r:0:260}"; fi
 done
-for p in $V/quiet-*.diff; do
+for p in $(has variants && ls $V/quiet-*.diff); do
   [ -f $p ] || continue
   place $p >/dev/null || { echo "variant $(basename $p): APPLY-FAILED"; fail=1; continue; }
   (cd $T/wt && go build ./... 2>&1 | head -3)
